@@ -264,6 +264,9 @@ type Stage struct {
 	EndReason string
 	// ExtraEnv lets a family define its own environment event kinds.
 	ExtraEnv func(e world.EnvEvent) func()
+	// ValidateFirst runs the real configuration.Validate on the built configuration before the objects are
+	// created (only for configurations without cmd entries: the configuration file rule needs a file).
+	ValidateFirst bool
 	// HarnessDriven: a harness task started in OnBooted ends the run itself.
 	HarnessDriven bool
 	CancelledT    time.Duration
@@ -355,6 +358,14 @@ func (s *Stage) ActorsLeft() int { s.mu.Lock(); defer s.mu.Unlock(); return s.ac
 
 // Boot is the task that performs what RunDaemon does up to starting the actors.
 func (s *Stage) boot() {
+	if s.ValidateFirst {
+		// what every entry point of the program does between loading the configuration and using it
+		if err := configuration.Validate(""); err != nil {
+			s.BootErr = fmt.Errorf("validation: %w", err)
+			s.K.Stop()
+			return
+		}
+	}
 	fanMap, err := internal.InitializeObjects()
 	if err != nil {
 		s.BootErr = err
